@@ -58,7 +58,6 @@ R292_ALLOWED = {
     "dask_array/_utils.py::compute_meta": "THE metadata helper: arguments are rebuilt from ._meta / meta_from_array (zero-element arrays)",
     "dask_array/_core_utils.py::apply_infer_dtype": "documented dtype-inference fallback inherited from dask: one-element np.ones dummies, never a block of the array",
     "dask_array/_ufunc.py::ufunc.__call__": "no dask argument present: the NumPy ufunc is applied eagerly to the caller's in-memory values (plain NumPy semantics)",
-    "dask_array/_ufunc.py::da_frompyfunc.__call__": "task-side: a da_frompyfunc object is itself the block function (it escapes into tasks as an instance, which the function-level kernel set cannot see)",
     "dask_array/_ufunc.py::DoubleOutputs._meta": "NumPy ufunc applied to a one-element dummy of the input dtype",
     "dask_array/_collection.py::Array.__array_function__.handle_nonmatching_names": "documented eager fallback of __array_function__ for NumPy functions dask_array does not implement (warns, then computes)",
     "dask_array/reductions/_cumulative.py::CumReduction.dtype": "called on np.ones((0,)): an empty array",
@@ -66,8 +65,6 @@ R292_ALLOWED = {
     "dask_array/reductions/_reduction.py::PartialReduce._meta": "called on reduced_meta / the child's _meta: zero-element metas by R29.5",
     "dask_array/creation/_utils.py::_parse_wrap_args": "func is a NumPy creation routine (np.ones/zeros/empty/full) fixed by the wrapper, not a user function; only reached when no dtype was given",
     "dask_array/_frisky/blelloch.py::_infer_itemsize_stamps": "records-path stamp inference: binop applied to two-element dummies of the meta dtype",
-    "dask_array/_core_utils.py::_BlockwiseDepLookup.__call__": "task-side: instances of this callable wrap the block function inside tasks (class instances escape into tasks, which the function-level kernel set cannot see)",
-    "dask_array/_frisky/blockwise.py::_BlockwiseBoundArgs.__call__": "task-side: callable wrapper shipped in Frisky blockwise layers",
     "dask_array/creation/_utils.py::_broadcast_trick_inner": "task-side: the @curry'd kernel behind ones/zeros/full; func is the NumPy creation routine",
 }
 # (class, operand) meta-like operands that are produced only inside the package (never fed from a user meta= argument)
